@@ -44,6 +44,8 @@ def conserving(spec):
     for (u, v, w) in spec["edges"]:
         ww = w if edge_mode_attr else None
         outs.setdefault(u, []).append(ww); ins.setdefault(v, []).append(ww)
+    if not edge_mode_attr and spec["edges"]:
+        return False            # node mode: the expanded graph's connecting edges carry no flow attribute
     for x in spec["nodes"]:
         if x not in ins or x not in outs:
             continue
@@ -80,18 +82,7 @@ def greedy_ok_flags(spec):
     return flags
 
 
-def search_enters(spec):
-    cls = spec["cls"]
-    if cls not in ("MinFlowDecomp", "MinFlowDecompCycles", "MinPathCover", "MinPathCoverCycles"):
-        return True
-    try:
-        m = ci.construct(spec)
-        return m.get_lowerbound_k() < m.G.number_of_edges()
-    except BaseException:
-        return True           # an exception precedes the loop: the flag is not looked at
-
-
-def abstract(spec):
+def abstract(spec, obs=None):
     G = ci._graph(spec)
     nodes = spec["nodes"]
     names1 = [x for x in nodes if isinstance(x, str) and len(x) == 1]
@@ -122,7 +113,11 @@ def abstract(spec):
     a["cov"] = common.qtok(spec["cov"])
     a["starts"] = [x in nodes for x in spec["starts"]]; a["ends"] = [x in nodes for x in spec["ends"]]
     a["ign"] = [[item_kind(it), ingraph(it)] for it in spec["ign"]]
-    a["search_enters"] = search_enters(spec)
+    # Min* classes: did the k-loop of solve() construct a k-model?  Read off the observed run; if an exception
+    # preceded the loop the flag is never looked at by the model either.
+    a["search_enters"] = True
+    if obs is not None and obs.get("inner") is False and not obs.get("ctor") and not obs.get("solve"):
+        a["search_enters"] = False
     return a
 
 
@@ -166,8 +161,6 @@ def finding_key(spec, a, obs):
     if cyc and cls != "stDiGraph" or cls == "stDiGraph":
         if cyc and ((not a["has_source"] and not st and a["src_fooled"]) or (not a["has_sink"] and not en and a["snk_fooled"])):
             return "stDiGraph:source-sink-test-fooled:single-char-node-names"
-    if cls == "kPathCover" and spec["origin"] == "node" and obs == "TypeError":
-        return "kPathCover:TypeError:cover_type=node"
     if cls in ci.HAS_K and k is not None:
         if not isinstance(k, int) and obs == "TypeError":
             return "k-models:TypeError:non-integer-k"
@@ -185,6 +178,10 @@ def finding_key(spec, a, obs):
         return "Min-models:validation-skipped:empty-k-range"
     if cls in ("kFlowDecompCycles", "MinFlowDecompCycles") and not a["conserving"] and obs == "UNSOLVED":
         return "kFlowDecompCycles:unsolved-not-ValueError:non-conserving-flow"
+    if cls == "MinPathCoverCycles" and obs == "ValueError" and spec["starts"] + spec["ends"] and (not a["has_source"] or not a["has_sink"]):
+        return "MinPathCoverCycles:ValueError:lower-bound-ignores-additional-starts"
+    if cls == "MinFlowDecompCycles" and obs == "ValueError" and spec["origin"] == "node" and spec["starts"] + spec["ends"]:
+        return "MinFlowDecompCycles:ValueError:node-mode-additional-starts"
     if cls == "MinErrorFlow" and not a["acyclic"] and spec["origin"] == "edge" and not all(a["nodes_str"]) and obs in ("SOLVED", "UNSOLVED"):
         return "MinErrorFlow:accepted:non-string-nodes-in-cyclic-graph"
     return None
@@ -207,13 +204,20 @@ def applicable(cls, v, spec):
 
 
 def make_cases(ctx, n_valid, n_pairs):
-    """yields (stream, cls, idx, violations, spec)"""
+    """yields (stream, cls, idx, violations, spec); stream in valid | single | pair | outside"""
     for cls in ci.ALL_CLASSES:
         vs = ci.violations_for(cls)
         for i in range(n_valid):
             rng = ctx.rng("valid:" + cls, i)
             base = ci.gen_valid(rng, cls)
             yield ("valid", cls, i, [], base)
+            for name, fn in (("start_only", ci.variant_start_only), ("node_starts", ci.variant_node_starts)):
+                s = copy.deepcopy(base)
+                if fn(s, ctx.rng("variant:%s:%s" % (cls, name), i)):
+                    yield ("valid", cls, i, [], s)
+            s = copy.deepcopy(base)
+            if i % 3 == 0 and ci.variant_all_ignored(s, rng):
+                yield ("outside", cls, i, [], s)
             for v in vs:                                   # every single violation kind on every valid input
                 rngv = ctx.rng("viol:%s:%s" % (cls, v), i)
                 s = copy.deepcopy(base)
@@ -243,36 +247,30 @@ def spec_json(spec):
     return json.loads(json.dumps(spec, default=str))
 
 
-def evaluate(ctx, stream, cls, idx, viols, spec, out_line=None):
-    """returns (request, finish) for batching"""
-    a = abstract(spec)
-    return a, tokens(spec, a)
-
-
 def run(ctx):
     ctx.rule = ("case = (class, valid input, list of violation kinds applied); valid inputs: random DAG (<=5 nodes) / cyclic "
                 "digraph (<=6 nodes), flows = superposition of <=4 weighted source-to-sink routes, constraints cut from those routes, "
                 "ignore lists, additional starts/ends, edge or node weights; every single violation kind of the class on every valid "
                 "input plus sampled pairs; non-trivial = at least one violation applied or a valid input with constraints / ignore "
                 "list / node weights; distinct by (class, abstract input)")
-    n_valid = ctx.budget(7, 150); n_pairs = ctx.budget(36, 1500)
+    n_valid = ctx.budget(14, 150); n_pairs = ctx.budget(80, 1500)
     cases = []
     for (stream, cls, idx, viols, spec) in make_cases(ctx, n_valid, n_pairs):
-        a = abstract(spec)
-        cases.append((stream, cls, idx, viols, spec, a, tokens(spec, a)))
+        r = ci.observe(spec)                      # run the implementation first: the abstraction reads `inner` off it
+        if r is None:
+            continue
+        a = abstract(spec, r)
+        cases.append((stream, cls, idx, viols, spec, a, tokens(spec, a), r))
     outs = ctx.model.run([c[6] for c in cases])
-    for (stream, cls, idx, viols, spec, a, req), out in zip(cases, outs):
-        check_case(ctx, stream, cls, idx, viols, spec, a, req, out)
+    for (stream, cls, idx, viols, spec, a, req, r), out in zip(cases, outs):
+        check_case(ctx, stream, cls, idx, viols, spec, a, req, out, r)
 
 
-def check_case(ctx, stream, cls, idx, viols, spec, a, req, out):
+def check_case(ctx, stream, cls, idx, viols, spec, a, req, out, r):
     parts = out.split()
     if len(parts) != 2 or out.startswith("ERROR"):
         ctx.report("model driver failed on a request: " + out, {"request": req}, concrete=False); return True
     model_out, model_dom = parts[0], parts[1] == "1"
-    r = ci.observe(spec)
-    if r is None:
-        return False
     obs = observed_outcome(r)
     canon = [cls, req]
     nontriv = bool(viols) or bool(spec["cons"] or spec["ign"] or spec["origin"] == "node" or spec["starts"])
@@ -294,6 +292,8 @@ def check_case(ctx, stream, cls, idx, viols, spec, a, req, out):
         if not model_dom:
             ctx.report("generator / model mismatch: in_domain_%s is false on an input of the valid stream" % cls, replay, concrete=False)
             return True
+    elif stream == "outside":
+        ctx.count("outside_property_clause", "cases")      # DESIGN #24: correspondence only
     else:
         ctx.count("property_invalid_rejected", "cases")
         if obs != "ValueError":
@@ -319,10 +319,10 @@ def check_case(ctx, stream, cls, idx, viols, spec, a, req, out):
 
 def replay(ctx, body):
     spec = eval(body["input_repr"], {"__builtins__": {}}, {})
-    a = abstract(spec)
+    r = ci.observe(spec)
+    a = abstract(spec, r)
     req = tokens(spec, a)
     out = ctx.model.run([req])[0]
-    r = ci.observe(spec)
     obs = observed_outcome(r)
     print("observed now:", r, "->", obs, "| model:", out)
     bad = (obs != "ValueError") if body["violations"] else bool(r["ctor"] or r["solve"])
